@@ -238,6 +238,8 @@ def k21_match_overrides(ctx, pid: str):
                 if e[0] == "catalyse":
                     recv, cargs, ckw = e[1], e[2], e[3]
                     whole = False
+                    if set(ckw) <= {"linear"} and ckw.get("linear", True) is True:
+                        ckw = {}  # the library's default, spelled out: the fragment is digested as a linear molecule
                     if len(cargs) == 1 and not ckw and isinstance(cargs[0], (ASeq, ARec)):
                         whole = I.same_pieces(cargs[0].pieces, I.circular_interval("W:x", N, S0_, E3_))
                     info["digests"].append({"own_cutter": recv is I.kernel_args[0].attrs.get("cutter"), "whole_match": whole,
@@ -416,10 +418,145 @@ def helper_rules(ctx, rule: str):
                                                                 "a class without cutter must be refused: %r" % (o,))]), cc.where())
 
 
+def _identity_dunder(p, c, name, raw):
+    """True when the definition of __eq__ / __ne__ / __hash__ in class c spells out what `object` does (identity), False when
+    it compares or hashes by value; AnalysisError when neither can be told.  __eq__ may answer `self is other` or
+    NotImplemented (Python then falls back to identity), __ne__ the negation or NotImplemented, __hash__ id(self) or
+    object.__hash__(self)."""
+    if isinstance(raw, ast.AST) and not isinstance(raw, (ast.FunctionDef, ast.Lambda)):
+        return ast.unparse(raw) == "object.%s" % name
+    if not isinstance(raw, FuncInfo):
+        raise AnalysisError("%s.%s: the definition is not a function or an alias of object's" % (c.qualname, name))
+    a = raw.node.args
+    params = [x.arg for x in a.posonlyargs + a.args]
+    if a.vararg or a.kwarg or a.kwonlyargs or len(params) != (1 if name == "__hash__" else 2):
+        raise AnalysisError("%s: unusual signature of %s" % (raw.where(), name))
+    me = params[0]
+    other = params[1] if len(params) > 1 else None
+
+    def is_obj_call(e, dunder, nargs):
+        # object.__x__(self[, other]) / super().__x__([other]) when the next definition in the MRO is object's
+        if not (isinstance(e, ast.Call) and isinstance(e.func, ast.Attribute) and e.func.attr == dunder and not e.keywords):
+            return False
+        f = e.func.value
+        if isinstance(f, ast.Name) and f.id == "object" and len(e.args) == nargs and isinstance(e.args[0], ast.Name) and e.args[0].id == me:
+            return nargs == 1 or (isinstance(e.args[1], ast.Name) and e.args[1].id == other)
+        if isinstance(f, ast.Call) and isinstance(f.func, ast.Name) and f.func.id == "super" and len(e.args) == nargs - 1:
+            nxt = p.class_attr_def(c, dunder, after=c)[0]
+            return nxt is None and (nargs == 1 or (isinstance(e.args[0], ast.Name) and e.args[0].id == other))
+        return False
+
+    def value(e, same):
+        """the value of a return expression when `self is other` is `same`: True / False / NotImplemented, or None = by value"""
+        if isinstance(e, ast.Constant) and e.value in (True, False) and isinstance(e.value, bool):
+            return e.value
+        if isinstance(e, ast.Name) and e.id == "NotImplemented":
+            return NotImplemented
+        if isinstance(e, ast.Compare) and len(e.ops) == 1:
+            l, r_ = e.left, e.comparators[0]
+            names = sorted(x.id for x in (l, r_) if isinstance(x, ast.Name))
+            if names == sorted([me, other]) and isinstance(e.ops[0], (ast.Is, ast.IsNot)):
+                return same == isinstance(e.ops[0], ast.Is)
+            ids = [x for x in (l, r_) if isinstance(x, ast.Call) and isinstance(x.func, ast.Name) and x.func.id == "id" and len(x.args) == 1
+                   and isinstance(x.args[0], ast.Name)]
+            if len(ids) == 2 and sorted(x.args[0].id for x in ids) == sorted([me, other]) and isinstance(e.ops[0], (ast.Eq, ast.NotEq, ast.Is, ast.IsNot)):
+                if isinstance(e.ops[0], (ast.Is, ast.IsNot)):
+                    return None  # identity of two int objects: not what is meant
+                return same == isinstance(e.ops[0], ast.Eq)
+        if isinstance(e, ast.IfExp):
+            t = value(e.test, same)
+            if t is True:
+                return value(e.body, same)
+            if t is False:
+                return value(e.orelse, same)
+            if t is None and _mentions_state(e.test):
+                return None
+            b, o = value(e.body, same), value(e.orelse, same)
+            return b if b is o else ("either", b, o)
+        if isinstance(e, ast.UnaryOp) and isinstance(e.op, ast.Not):
+            v = value(e.operand, same)
+            return (not v) if isinstance(v, bool) else None
+        if is_obj_call(e, "__eq__", 2):
+            return True if same else NotImplemented
+        if is_obj_call(e, "__ne__", 2):
+            return NotImplemented if same else True  # object.__ne__ inverts __eq__'s answer when there is one
+        return None
+
+    def _mentions_state(e):
+        return any(isinstance(n, ast.Attribute) and isinstance(n.value, ast.Name) and n.value.id in (me, other) for n in ast.walk(e))
+
+    def flat(v):
+        if isinstance(v, tuple) and v and v[0] == "either":
+            return flat(v[1]) + flat(v[2])
+        return [v]
+
+    def returns(body, same):
+        """values returned by the statement list; tests that are not about identity fork (both arms are followed)"""
+        out, falls = [], True
+        for st in body:
+            if isinstance(st, ast.Return):
+                out += flat(value(st.value, same) if st.value is not None else None)
+                return out, False
+            if isinstance(st, ast.If):
+                t = value(st.test, same)
+                if t is None and _mentions_state(st.test):
+                    return out + [None], False
+                arms = []
+                if t is not False:
+                    arms.append(st.body)
+                if t is not True:
+                    arms.append(st.orelse)
+                fall_any = False
+                for arm in arms:
+                    o, f = returns(arm, same)
+                    out += o
+                    fall_any = fall_any or f
+                if not fall_any:
+                    return out, False
+                continue
+            if isinstance(st, ast.Expr) and isinstance(st.value, ast.Constant):
+                continue  # docstring
+            if isinstance(st, (ast.Pass,)):
+                continue
+            raise AnalysisError("%s: statement `%s` in %s is not understood by the identity evaluation" % (raw.where(), ast.unparse(st)[:60], name))
+        return out, falls
+
+    if name == "__hash__":
+        body = [st for st in raw.node.body if not (isinstance(st, ast.Expr) and isinstance(st.value, ast.Constant))]
+        if len(body) == 1 and isinstance(body[0], ast.Return) and body[0].value is not None:
+            e = body[0].value
+            if isinstance(e, ast.Call) and isinstance(e.func, ast.Name) and e.func.id in ("id", "hash") and len(e.args) == 1:
+                inner = e.args[0]
+                if e.func.id == "id" and isinstance(inner, ast.Name) and inner.id == me:
+                    return True
+                if e.func.id == "hash" and isinstance(inner, ast.Call) and isinstance(inner.func, ast.Name) and inner.func.id == "id" \
+                        and len(inner.args) == 1 and isinstance(inner.args[0], ast.Name) and inner.args[0].id == me:
+                    return True
+            if is_obj_call(e, "__hash__", 1):
+                return True
+            if _mentions_state(e):
+                return False
+        raise AnalysisError("%s: __hash__ is neither id(self) / object.__hash__(self) nor a hash of the instance's state" % raw.where())
+    for same in (True, False):
+        vals, falls = returns(raw.node.body, same)
+        if falls:
+            vals.append(None)
+        want = same if name == "__eq__" else (not same)
+        for v in vals:
+            if v is None:
+                return False
+            if v is not NotImplemented and v is not want:
+                return False
+    return True
+
+
 def identity_rule(ctx, rule: str):
     """Modules, vectors and parts compare and hash by identity: the
     per-instance match cache (a WeakKeyDictionary) and the duplicate detection
-    of the assembly (`is`, de-duplication of arguments) both rest on it."""
+    of the assembly (`is`, de-duplication of arguments) both rest on it.  A class
+    may spell the defaults of `object` out (`__hash__ = object.__hash__`, `__eq__`
+    answering `self is other` or NotImplemented): what is refused is a definition
+    that compares or hashes by value."""
     p = ctx.program
     r = ctx.report
     seen = set()
@@ -427,9 +564,21 @@ def identity_rule(ctx, rule: str):
         for c in p.mro(kc.ci):
             if hasattr(c, "attrs") and id(c) not in seen:
                 seen.add(id(c))
-                bad = [a for a in ("__eq__", "__hash__", "__ne__") if a in c.attrs]
+                bad, undecided = [], []
+                for a in ("__eq__", "__hash__", "__ne__"):
+                    if a not in c.attrs:
+                        continue
+                    try:
+                        if not _identity_dunder(p, c, a, c.attrs[a]):
+                            bad.append(a)
+                    except AnalysisError as exc:
+                        undecided.append(str(exc))
+                if undecided and not bad:
+                    raise AnalysisError(undecided[0])  # (a definition that is by value decides, whatever the others are)
+                if "__eq__" in c.attrs and "__hash__" not in c.attrs and "__eq__" not in bad:
+                    bad.append("__eq__ without __hash__ (the class becomes unhashable)")
                 r.ob(rule, c.qualname, not bad,
-                     "%s defines %s: two wrappers that compare equal share one cached match and collapse into one module wherever arguments are de-duplicated"
+                     "%s defines %s by value: two wrappers that compare equal share one cached match and collapse into one module wherever arguments are de-duplicated"
                      % (c.qualname, ", ".join(bad)), c.where())
     r.floor(rule, 80)
 
@@ -586,6 +735,13 @@ def fragment_cache_rule(ctx, rule: str):
                     r.ob(rule, raw.qualname + "#stores", not stores,
                          "%s keeps state on the instance (`%s`): its result is no longer rebuilt from the record on every call"
                          % (raw.qualname, re.sub(r"\s+", " ", raw.module.segment(stores[0]) or "")[:70] if stores else ""), raw.where())
+    # the accessors of the two base classes, whichever class of moclo.core implements them (each its own, or one shared
+    # implementation driven by class attributes): seven (class, accessor) pairs, all judged above through the MRO
+    for cname, meths in (("moclo.core.modules.AbstractModule", names[:1] + names[2:]), ("moclo.core.vectors.AbstractVector", names)):
+        for meth in meths:
+            raw = p.class_attr_def(p.get_class(cname), meth)[1]
+            r.ob(rule, "%s.%s#resolves" % (cname, meth), isinstance(raw, FuncInfo),
+                 "%s.%s does not resolve to a function" % (cname, meth), raw.where() if isinstance(raw, FuncInfo) else "-")
     r.floor(rule, 7)
 
 
@@ -1045,8 +1201,37 @@ def order_independence_rule(ctx, rule: str):
         return False
 
     n = 0
-    mgr_node = p.get_class("moclo.core._assembly.AssemblyManager").node
+    mgr_ci = p.get_class("moclo.core._assembly.AssemblyManager")
+    mgr_node = mgr_ci.node
     inside_mgr = {id(x) for x in ast.walk(mgr_node)}
+    ctor_state = {}
+
+    def ctor_attr_is_whole(attr: str) -> bool:
+        """the constructor, evaluated on a generic list of modules, leaves in self.<attr> a collection of exactly the
+        supplied modules (whatever expression computed it: `(modules + [vector])[:-1]` is `modules` again)"""
+        if "attrs" not in ctor_state:
+            from .kernels2 import build_manager
+
+            init = p.class_attr_def(mgr_ci, "__init__")[1]
+            vals: Dict[str, list] = {}
+
+            def make_args(I):
+                _, _, mod_cls, vec_cls = _mgr_world(ctx)
+                mods = ACollection("modules", lambda: _entity(mod_cls, "m"))
+                return (AObj(mgr_ci, {}, name="mgr"), _entity(vec_cls, "V"), mods), {}
+
+            def post(I, o):
+                if o.kind == "return":
+                    for k_, v_ in I.kernel_args[0].attrs.items():
+                        vals.setdefault(k_, []).append(v_)
+                return []
+
+            if isinstance(init, FuncInfo):
+                run_paths(ctx, init, make_args, [], hooks=_entity_hooks(p), post=post)
+            ctor_state["attrs"] = vals
+        got = ctor_state["attrs"].get(attr)
+        return bool(got) and all(isinstance(v_, ACollection) and v_.name == "modules" for v_ in got)
+
     for node in ast.walk(m.tree):
         if isinstance(node, ast.Attribute) and node.attr in ("modules", "elements") and isinstance(node.value, ast.Name) and node.value.id == "self" and isinstance(node.ctx, ast.Load):
             if id(node) not in inside_mgr:
@@ -1055,6 +1240,20 @@ def order_independence_rule(ctx, rule: str):
                 continue
             par = parents.get(id(node))
             ok = whole(node, par, m)
+            if not ok and isinstance(par, ast.Subscript) and par.value is node and isinstance(par.slice, ast.Slice):
+                # a slice is positional in general; when it only computes an attribute of the manager in the constructor,
+                # what that attribute then holds decides
+                up = parents.get(id(par))
+                fn_ = up
+                while fn_ is not None and not isinstance(fn_, (ast.FunctionDef, ast.Lambda)):
+                    fn_ = parents.get(id(fn_))
+                if isinstance(up, ast.Assign) and up.value is par and len(up.targets) == 1 and isinstance(up.targets[0], ast.Attribute) \
+                        and isinstance(up.targets[0].value, ast.Name) and up.targets[0].value.id == "self" \
+                        and isinstance(fn_, ast.FunctionDef) and fn_.name == "__init__":
+                    try:
+                        ok = ctor_attr_is_whole(up.targets[0].attr)
+                    except AnalysisError:
+                        ok = False
             n += 1
             r.ob(rule, "moclo.core._assembly#self.%s@%s" % (node.attr, re.sub(r"\W+", "", m.segment(par) or "")[:50]), ok,
                  "the list of supplied modules must be consumed as a whole (iteration, concatenation, join); `%s` depends on the argument order"
